@@ -283,8 +283,26 @@ def math_snapshot(o):
     if isinstance(o, fontMath.MathKerning):
         return ("kerning", tuple(sorted(o.items())), tuple(sorted((k, tuple(v)) for k, v in o.groups().items())))
     if isinstance(o, fontMath.MathInfo):
-        return ("info", tuple(sorted((k, repr(v)) for k, v in vars(o).items() if v is not None)))
+        return info_snapshot(o)
     return ("other", repr(o))
+
+
+class InfoSnap(tuple):
+    """run-time snapshot of a MathInfo that remembers the object (rounding and the attributes that _generate_instance_info inspects are
+    computed from it: contracts/c19d.py)"""
+
+    live = None
+
+    def __deepcopy__(self, memo):
+        return self
+
+
+def info_snapshot(o):
+    # the three attributes that have clauses of their own (contracts/c19d.py), and postscriptWeightName which round() derives from one of them, are left out
+    skip = ("guidelines", "openTypeOS2WeightClass", "openTypeOS2WidthClass", "italicAngle", "postscriptWeightName")
+    s = InfoSnap(("info", tuple(sorted((k, repr(v)) for k, v in vars(o).items() if v is not None and k not in skip))))
+    s.live = o
+    return s
 
 
 CLASSES["MathObj"].views["data"] = math_snapshot
